@@ -418,7 +418,27 @@ def post_oracle(pid, cases, outs):
             fails.append((c, o, "after a completed message / reset the parser must behave like a fresh one: continuation alone gives %s" % ref))
     return fails
 
+def _kx_sweeps(tier, rng):
+    """all 65536 named groups and all 256 curve types (the property's own quantifier), with spec expectations"""
+    from vlib import Case
+    out = []
+    for g in range(65536):
+        tail = bytes(rng.randrange(256) for _ in range(rng.choice([0, 0, 2])))
+        at = "@_+0" if not tail else "@3+%d" % len(tail)
+        out.append(Case("parse_ec_parameters %s" % (bytes([3, g >> 8, g & 255]) + tail).hex(),
+                        "(ok %s (ECParameters 3 (NamedGroup %d)))" % (at, g), "sweep"))
+        if g % 16 == 0 or tier == "thorough":
+            pt = bytes([2, 4, 5])
+            out.append(Case("parse_ecdh_params %s" % (bytes([3, g >> 8, g & 255]) + pt).hex(),
+                            "(ok @_+0 (ECDH (ECParameters 3 (NamedGroup %d)) #4:0405))" % g, "sweep"))
+    for t in range(256):
+        if t in (1, 3): continue
+        out.append(Case("parse_ec_parameters %s" % bytes([t, 0, 23, 1, 2]).hex(), "(err Switch @1+4)", "sweep"))
+        out.append(Case("ECParametersContent::parse %d 0017" % t, "(err Switch @0+2)", "sweep"))
+    return out
+
 def extra_cases(pid, tier, seed, rng):
+    if pid == "C13": return _kx_sweeps(tier, rng)
     if pid == "C07": return _defrag_histories(tier, seed, rng)
     if pid == "C02": return _length_sweep(tier, rng)
     if pid == "C12": return _cipher_cases(tier, rng)
